@@ -240,6 +240,83 @@ theorem step_of_ended (lim : Limits) (s : St) (op : Op) (h : s.ended = true) : s
   cases op <;> simp [step, h]
   split <;> rfl
 
+theorem readO_of_prefix (h h' : Heap) (hp : h'.take h.length = h) (a : Option Slice)
+    (ha : ∀ s, a = some s → s.arr < h.length) : h'.readO a = h.readO a := by
+  cases a with
+  | none => rfl
+  | some s => exact read_of_prefix h h' hp s (ha s rfl)
+
+theorem take_min_length {α : Type} (l : List α) (n : Nat) : l.take (min n l.length) = l.take n := by
+  by_cases h : n ≤ l.length
+  · rw [Nat.min_eq_left h]
+  · rw [Nat.min_eq_right (by omega), List.take_of_length_le (Nat.le_refl _), List.take_of_length_le (by omega)]
+
+theorem segSlice_read (h : Heap) (s : Seg) : h.read (segSlice h s) = readSeg h s := by
+  simp only [Heap.read, segSlice, readSeg, readArr]
+  rw [← List.length_drop, take_min_length]
+
+theorem segSlice_len (h : Heap) (s : Seg) : (segSlice h s).len = (readSeg h s).length := by
+  simp only [segSlice, readSeg, readArr, List.length_take, List.length_drop]
+
+/-- the per-item cut on a slice header reads as the per-item cut on the values -/
+theorem capSlice_read (limit : Int) (h : Heap) (a : Option Slice) (hlen : sliceLen a = (h.readO a).length) :
+    h.readO (capSlice limit a).1 = (capAttrs limit (h.readO a)).1 ∧ (capSlice limit a).2 = (capAttrs limit (h.readO a)).2 := by
+  unfold capSlice capAttrs
+  rw [hlen]
+  split
+  · exact ⟨rfl, rfl⟩
+  · split
+    · rename_i hcut
+      refine ⟨?_, rfl⟩
+      cases a with
+      | none => simp [Heap.readO]
+      | some s =>
+        simp only [Option.map_some, Heap.readO, Heap.read, readArr, sliceLen] at hlen hcut ⊢
+        rw [List.take_take]
+        congr 1
+        rw [← hlen] at hcut
+        omega
+    · exact ⟨rfl, rfl⟩
+
+theorem goClone_spec (grow : Nat → Nat) (h0 h : Heap) (hp : h.take h0.length = h0) (a : Option Slice) :
+    (goClone grow h a).1.take h0.length = h0 ∧ (goClone grow h a).1.readO (goClone grow h a).2 = h.readO a ∧
+    (∀ s, (goClone grow h a).2 = some s → h.length ≤ s.arr ∧ s.arr < (goClone grow h a).1.length) ∧
+    h.length ≤ (goClone grow h a).1.length := by
+  cases a with
+  | none =>
+    refine ⟨hp, rfl, ?_, Nat.le_refl _⟩
+    intro s hs
+    cases hs
+  | some s0 =>
+    have hg := good_alloc grow h h (List.take_length) (h.read s0)
+    simp only [goClone]
+    refine ⟨prefix_trans h0 h _ hp hg.1, (good_readO h _ _ hg).1, ?_, ?_⟩
+    · intro s hs
+      cases hs
+      simp [alloc]
+    · simp [alloc]
+
+theorem litSlice_spec (h : Heap) (kvs : List KV) :
+    (litSlice h kvs).1.take h.length = h ∧ (litSlice h kvs).1.readO (litSlice h kvs).2 = kvs ∧
+    sliceLen (litSlice h kvs).2 = kvs.length := by
+  unfold litSlice
+  split
+  · rename_i he
+    have : kvs = [] := by simpa using he
+    subst this
+    exact ⟨List.take_length, rfl, rfl⟩
+  · have hg := good_alloc (fun n => n) h h (List.take_length) kvs
+    exact ⟨hg.1, (good_readO h _ _ hg).1, by simp [alloc, sliceLen]⟩
+
+theorem step_addLink_skip (lim : Limits) (s : St) (sc : SC) (a : List KV)
+    (h : (!sc.isValid && a.isEmpty && sc.ts == 0) = true) : step lim s (.addLink sc a) = s := by
+  simp only [step, h, if_true]
+
+theorem step_addLink_recording (lim : Limits) (s : St) (sc : SC) (a : List KV)
+    (hk : ¬ (!sc.isValid && a.isEmpty && sc.ts == 0) = true) (h : s.ended = false) :
+    step lim s (.addLink sc a) = { s with links := s.links.add lim.linkCount (mkLink lim sc a) } := by
+  simp only [step, hk, if_false, h, Bool.false_eq_true]
+
 /-! ## queues -/
 
 theorem EQ.add_map {α β : Type} (f : α → β) (cap : Int) (q : EQ α) (v : α) :
@@ -269,18 +346,16 @@ theorem EQ.mem_add {α : Type} (cap : Int) (q : EQ α) (v e : α) (he : e ∈ (q
 
 /-! ## the span without its events -/
 
-/-- operations other than AddEvent / RecordError neither read nor write the event queue -/
-theorem step_events_irrel (lim : Limits) (s : St) (e : EQ Event) (op : Op)
-    (h1 : ∀ n a, op ≠ .addEvent n a) (h2 : ∀ er a, op ≠ .recordError er a) :
-    step lim { s with events := e } op = { step lim s op with events := e } := by
+/-- operations other than AddEvent / RecordError / AddLink neither read nor write the event and link queues -/
+theorem step_queues_irrel (lim : Limits) (s : St) (e : EQ Event) (l : EQ Link) (op : Op)
+    (h1 : ∀ n a, op ≠ .addEvent n a) (h2 : ∀ er a, op ≠ .recordError er a) (h3 : ∀ sc a, op ≠ .addLink sc a) :
+    step lim { s with events := e, links := l } op = { step lim s op with events := e, links := l } := by
   cases op with
   | addEvent n a => exact absurd rfl (h1 n a)
   | recordError er a => exact absurd rfl (h2 er a)
+  | addLink sc a => exact absurd rfl (h3 sc a)
   | setAttrs kvs =>
     by_cases hk : kvs.isEmpty = true <;> by_cases he : s.ended = true <;> simp [step, hk, he]
-  | addLink sc attrs =>
-    by_cases hk : (!sc.isValid && attrs.isEmpty && sc.ts == 0) = true <;> by_cases he : s.ended = true <;>
-      simp only [step, hk, he] <;> simp [he]
   | setStatus c d => by_cases he : s.ended = true <;> simp [step, he]
   | setName n => by_cases he : s.ended = true <;> simp [step, he]
   | end_ => by_cases he : s.ended = true <;> simp [step, he]
